@@ -108,7 +108,12 @@ theorem goto_joinReset (c : ECfg S) (hv : c.variant = .main) : ∀ (fuel : Nat) 
   | succ fuel ih =>
     intro spec l
     have hbody : ∀ pid l, JoinReset (gotoBody c (goto c fuel) pid l) := by
-      intro pid l; unfold gotoBody; exact gotoLoop_joinReset c hv _ ih _ _ _ _ _ _
+      intro pid l; unfold gotoBody
+      have hl := gotoLoop_joinReset c hv _ ih (c.story.passages.length + 1) [] pid [] [] l
+      intro o ho
+      rw [keepCurOnError_snd] at ho
+      have := hl o ho
+      simpa [Live.joinSec] using this
     unfold goto
     split
     · intro o h; simp at h
